@@ -282,8 +282,11 @@ def main():
                 b0 = tbl[0].v
                 for i in range(15):
                     e = tbl[i].v
-                    if e is GA.INVALID or not z3.is_true(z3.simplify(z3.And([e.coeff(k) == b0.coeff(k) * (i + 1) for k in set(e.c) | set(b0.c)]))):
-                        raise X.Unsupported("table invariant tbl[i]=(i+1)*tbl[0] not established at %s" % fn)
+                    if e is GA.INVALID or b0 is GA.INVALID or not z3.is_true(z3.simplify(z3.And([e.coeff(k) == b0.coeff(k) * (i + 1) for k in set(e.c) | set(b0.c)]))):
+                        ctx.check(False, 'lookup-table-holds-(i+1)*P-at-%s (table entry %d is %s)' % (fn, i, 'uninitialised' if e is GA.INVALID else 'wrong'))
+                        if b0 is GA.INVALID:
+                            b0 = GA.ZERO
+                        break
                 idx = a[2]
                 if isinstance(idx, tm.T) and idx.ub > 15:
                     ctx.check(tm.ule(idx, 15, 64), 'bv:lookup-index-in-[0,15]')
